@@ -143,6 +143,13 @@ func VerifC04History() {
 			lib.VerifAssert(err == gen.ErrTargetExist || err == gen.ErrTargetUnknown, "requests on a live target fail only with exist/unknown-relation errors")
 		}
 	}
+	if (kind == 2 || (mix == 1 && kind == 1)) && lib.VerifPick("sibling-alias", 2) == 1 {
+		// the owner creates and deletes another alias in the meantime: the one under observation
+		// (older, at the front of the owner's list) must be unaffected
+		a2, err := w.t.CreateAlias()
+		lib.VerifAssert(err == nil, "second alias created")
+		lib.VerifAssert(w.t.DeleteAlias(a2) == nil, "second alias deleted")
+	}
 	// the target goes away
 	cause := lib.VerifPick("cause", 2)
 	var gone [4]bool
